@@ -143,32 +143,48 @@ def precedence(repo, res):
     res.check(len(pf) == 1, "lookup:prefix-only-if-split", fn.where(), "the prefixed reading is used only when the splitter returned a prefix", rid=r2)
     sp = repo.mod(US).func("_split_prefix")
     res.fn(sp)
-    s, l = sp.params
-    ok = True
-    n_pref = 0
-    for p in enum_paths(sp.body):
-        end = p[-1]
-        if end[0] != "return":
-            ok = False
-            continue
-        val = norm(end[1].value)
-        fm = dict((t, tr) for t, tr, _ in path_facts(p))
-        if val == f"('', {s})":
-            continue
-        n_pref += 1
-        ok &= val == "(possible_prefix, symbol_wo_pref)" and fm.get("possible_prefix in unit_prefixes") is True and fm.get("entry") is True and fm.get("entry[4]") is True
-    res.check(ok and n_pref >= 1, "split:prefixable-only", sp.where(), "a prefix is accepted only when it is a known prefix and the remainder is a table entry whose prefixable flag is set", rid=r2)
-    defs = [(n.lineno, norm(n.targets[0]), norm(n.value)) for n in walk_no_nested(sp.node) if isinstance(n, ast.Assign)]
-    want_entry = [d for d in defs if d[1] == "entry"]
-    res.check(len(want_entry) == 1 and want_entry[0][2] == f"{l}.get(symbol_wo_pref, None)", "split:entry-lookup", sp.where(), "the remainder is looked up in the given table", found=want_entry, rid=r2)
-    pp = [d[2] for d in defs if d[1] == "possible_prefix"]
-    wo = [d[2] for d in defs if d[1] == "symbol_wo_pref"]
-    res.check(sorted(pp) == sorted([f"{s}[0]", "'da'", "'da'"]) and sorted(wo) == sorted([f"{s}[1:]", f"{s}[2:]"]), "split:single-attempt", sp.where(), "one candidate prefix: the first character, or 'da' when the string starts with it", found=(pp, wo), rid=r2)
+    # decision table of the splitter over the folded tables: for every string of a universe built from the table
+    # (every symbol, every prefix attached to every symbol - prefixable or not -, 'da' forms, unknown remainders) the
+    # branch nest is folded and the selected return is compared with the documented rule: one candidate prefix ('da'
+    # when the string starts with it, otherwise the first character), accepted only if it is an SI prefix and the
+    # remainder is a table symbol whose prefixable flag is set.
+    from engine.dtable import decide
+
+    t = Tables(repo)
+    lutd = {k: tuple(v) for k, v in t.lut.items()}
+    prefixes = dict(t.prefix_pairs)
+    universe = set(lutd)
+    for pfx in prefixes:
+        for sym in lutd:
+            universe.add(pfx + sym)
+    universe |= {"da", "d", "k", "kzz", "dazz", "zz", "dam", "dag", "daft", "mm", "mmin", "cm", "min", "ft", "dakm"}
+    usm = repo.mod(US)
+    glob = {"unit_prefixes": prefixes}
+    bad = []
+    n_split = 0
+    for w in sorted(universe):
+        out = decide(usm, sp, [w, lutd], glob)
+        cand = "da" if w[:2] == "da" else w[:1]
+        rest = w[len(cand):]
+        entry = lutd.get(rest)
+        want = (cand, rest) if (cand in prefixes and entry and entry[4]) else ("", w)
+        got = out.value if out.kind == "return" else out
+        if want[0]:
+            n_split += 1
+        if got != want:
+            bad.append((w, got, want))
+    res.check(not bad and n_split > 100, "split:decision-table", sp.where(), f"_split_prefix decides {len(universe)} table-derived strings; a prefix must be accepted exactly when it is an SI prefix and the remainder is a prefixable table symbol" + (f" - first deviation: {bad[0][0]!r} gives {bad[0][1]!r}, documented {bad[0][2]!r}" if bad else ""), "documented split", bad[:3], rid=r2)
+    res.check(not [x for x in bad if x[2][0] == "" and isinstance(x[1], tuple) and x[1][0] != ""], "split:prefixable-only", sp.where(), "a non-prefixable unit (or an unknown remainder) must never accept a prefix", found=[x for x in bad if x[2][0] == ""][:3], rid=r2)
+    res.check(not [x for x in bad if x[2][0] != ""], "split:every-prefix-of-prefixable", sp.where(), "every SI prefix attached to a prefixable unit is split off", found=[x for x in bad if x[2][0] != ""][:3], rid=r2)
     tf = repo.mod(PAR).func("_auto_positive_symbol")
     res.fn(tf)
-    tr = [n for n in ast.walk(tf.node) if isinstance(n, ast.Try)]
-    ok = len(tr) == 1 and norm(tr[0].body[0]) == "used_name = inv_name_alternatives[str(name)]" and len(tr[0].handlers) == 1 and norm(tr[0].handlers[0].type) == "KeyError" and norm(tr[0].handlers[0].body[-1]) == "used_name = str(name)"
-    res.check(ok, "parser:alias-first", tf.where(), "a listed spelling is mapped to its canonical symbol; only unknown names become fresh symbols", rid=r2)
+    # (shared with C20-R1) the alias map is consulted first; only a KeyError falls back to the name as given
+    import rules.c20 as c20
+
+    tmp = Result("C20")
+    c20.vocabulary(repo, tmp)
+    bad = [f for f in tmp.findings if f.key.endswith("transformer:alias-map")]
+    res.check(not bad, "parser:alias-first", tf.where(), "a listed spelling is mapped to its canonical symbol; only unknown names become fresh symbols", found=[f.found for f in bad], rid=r2)
     # UnitRegistry.__getitem__/__contains__ use the same lookup
     for m in ("__getitem__", "__contains__"):
         f = reg.func(f"UnitRegistry.{m}")
